@@ -2,7 +2,7 @@ From Coq Require Extraction ExtrOcamlBasic.
 From OxiVerif Require Import Base.Conv DD.Table DD.TableExtra Mgr.Conc.
 Extraction Language OCaml.
 Extraction "model.ml" conv_anchor
-  Conc.step_tbl Conc.run_tbl Conc.step_rc Conc.run_rc Conc.erase_rc Conc.dec_ok_b Conc.step Conc.run Conc.run_results Conc.erase Conc.to_snap Conc.cinv_b
+  Conc.step_tbl Conc.run_tbl Conc.step_rc Conc.run_rc Conc.erase_rc Conc.dec_ok_b Conc.borrow_b Conc.can_borrow_b Conc.step Conc.run Conc.run_results Conc.erase Conc.to_snap Conc.cinv_b
   Conc.node_pre_b Conc.find_shape Conc.cfind Conc.crlevel Conc.cref_ok_b Conc.edge_ok_b Conc.has_parent_b
   Conc.cn_shape Conc.cremove Conc.owners Conc.parents Conc.cempty
   Conc.mkC Conc.mkCst Conc.cn Conc.cown Conc.cl Conc.cch Conc.crc
